@@ -26,7 +26,7 @@ COQ = VERIF / "coq"
 WORK = VERIF / ".work"
 EVID = VERIF / "evidence"
 REPLAYS = VERIF / "replays"
-REPO = Path("/repo")
+REPO = Path(os.environ.get("VERIF_REPO", "/repo"))  # override only for scratch worktrees (seeding, builders); registered checks use /repo
 REPO_SRC = [str(REPO / "packages/geff/src"), str(REPO / "packages/geff-spec/src")]
 NCPU = max(2, min(16, os.cpu_count() or 4))
 
